@@ -19,7 +19,7 @@ RULE = ("Field trees (recursive dict/list/Field; shapes unsigned(0-9), signed, E
         ">= 3 fields, nesting depth >= 2, mixed access, and a zero-width or non-connected field that "
         "is not last. Distinct = canonical JSON.")
 BUDGET = {"quick": (16, 250), "thorough": (16, 6000)}
-ESSENTIAL = ["via:arg", "via:annot", "refused_access", "accepted", "nc_not_last", "zero_width_field",
+ESSENTIAL = ["via:arg", "via:annot", "via:annot_sub", "refused_access", "accepted", "nc_not_last", "zero_width_field",
              "depth>=2", "root:list", "root:dict", "root:field", "offending_not_last"]
 ASSUMPTIONS = [
     "field values are observed at the field ports (port.r_data as driven by the action); action semantics are C12's business",
@@ -31,7 +31,7 @@ ASSUMPTIONS = [
 def _spec(draw, tier):
     tree = draw(gens.field_tree(components.ALL_ACTIONS, enums=True, max_leaves=10))
     acc = draw(st.sampled_from(["r", "w", "rw", "rw", "rw"]))
-    via = draw(st.sampled_from(["arg", "arg", "annot", "subclass_access"]))
+    via = draw(st.sampled_from(["arg", "arg", "annot", "annot_sub", "subclass_access"]))
     nvec = draw(st.integers(6, 14))
     vec = st.tuples(st.integers(0, (1 << 70) - 1), st.booleans(), st.booleans(), st.integers(0, 1 << 30)).map(list)
     return {"tree": tree, "acc": acc, "via": via, "vectors": draw(st.lists(vec, min_size=nvec, max_size=nvec))}
@@ -54,6 +54,12 @@ def _build(spec):
     if via == "annot" and "d" in spec["tree"]:
         cls = type("AnnotReg", (csr.Register,), {"__annotations__": dict(fields)})
         return cls(access=spec["acc"])
+    if via == "annot_sub" and "d" in spec["tree"]:
+        # an annotation-defined base class, instantiated first, then a subclass with its own annotations
+        base = type("BaseReg", (csr.Register,), {"__annotations__": {"base_only": csr.Field(gens.MockAction, 3, access="r")}})
+        base(access="r")
+        cls = type("SubReg", (base,), {"__annotations__": dict(fields)})
+        return cls(access=spec["acc"])
     if via == "subclass_access":
         cls = type("AccReg", (csr.Register,), {}, access=spec["acc"])
         return cls(fields)
@@ -65,7 +71,7 @@ def check(spec, stats):
         stats.label("pre_elaborated")
     tree, acc = spec["tree"], spec["acc"]
     leaves = gens.tree_leaves(tree)
-    stats.label("via:" + ("annot" if spec["via"] == "annot" and "d" in tree else "arg"))
+    stats.label("via:" + (spec["via"] if spec["via"] in ("annot", "annot_sub") and "d" in tree else "arg"))
     stats.label("root:" + ("dict" if "d" in tree else "list" if "l" in tree else "field"))
     need_r, need_w = gens.tree_access_needed(tree)
     must_refuse = (need_r and "r" not in acc) or (need_w and "w" not in acc)
